@@ -120,6 +120,12 @@ func instName(inst int) string {
 		return "string"
 	case 2:
 		return "struct{K int; S string}"
+	case 3:
+		return "float64" // inst 3..5: c05_nan.go
+	case 4:
+		return "struct{X, Y float64}"
+	case 5:
+		return "any"
 	}
 	return "?"
 }
